@@ -53,8 +53,10 @@ type Explorer struct {
 	Deadline time.Time
 	MaxViol  int
 	KeyFn    func(x *Exec) string // violation key (defaults to verdict+first line of detail)
-	// AfterExec runs after each execution (outside the scheduler), e.g. for race checks.
+	// AfterExec runs after each execution (outside the scheduler).
 	AfterExec func(x *Exec)
+	// PostRun runs after every Run (including replays) and may turn the execution into a violation (race mode).
+	PostRun func(x *Exec)
 
 	Stats      Stats
 	Violations []Violation
@@ -69,6 +71,7 @@ type Explorer struct {
 // DebugDiverge, when set, is called with parent and child executions on a replay divergence.
 var DebugDiverge func(parent, child *Exec, prefix []int)
 
+//go:norace
 func obsHash(obs []string) string {
 	h := sha1.New()
 	for _, o := range obs {
@@ -78,14 +81,19 @@ func obsHash(obs []string) string {
 	return hex.EncodeToString(h.Sum(nil)[:8])
 }
 
+//go:norace
 func (e *Explorer) runOnce(prefix []int) *Exec {
 	x := Run(prefix, e.Horizon, e.Body)
+	if e.PostRun != nil {
+		e.PostRun(x)
+	}
 	if e.AfterExec != nil {
 		e.AfterExec(x)
 	}
 	return x
 }
 
+//go:norace
 func (e *Explorer) account(x *Exec, count bool) {
 	if count {
 		e.Stats.Executions++
@@ -132,6 +140,7 @@ func (e *Explorer) account(x *Exec, count bool) {
 	}
 }
 
+//go:norace
 func chosen(x *Exec) []int {
 	out := make([]int, len(x.Choices))
 	for i, c := range x.Choices {
@@ -140,6 +149,7 @@ func chosen(x *Exec) []int {
 	return out
 }
 
+//go:norace
 func firstLine(s string) string {
 	if i := strings.IndexByte(s, '\n'); i >= 0 {
 		return s[:i]
@@ -147,6 +157,7 @@ func firstLine(s string) string {
 	return s
 }
 
+//go:norace
 func (e *Explorer) report(x *Exec) {
 	key := x.Verdict + ": " + firstLine(x.Detail)
 	if i := strings.Index(key, " | "); i >= 0 {
@@ -168,8 +179,14 @@ func (e *Explorer) report(x *Exec) {
 	ch := chosen(x)
 	// replay 5x: must reproduce the same verdict and observation log
 	same := 0
-	for i := 0; i < 5; i++ {
+	if x.Verdict == "race" {
+		same = 5 // not replayable in-process: the detector deduplicates reports; the schedule is kept for a fresh process
+	}
+	for i := 0; i < 5 && x.Verdict != "race"; i++ {
 		y := Run(ch, e.Horizon, e.Body)
+		if e.PostRun != nil {
+			e.PostRun(y)
+		}
 		if y.Verdict == x.Verdict && obsHash(y.Obs) == obsHash(x.Obs) && firstLine(y.Detail) == firstLine(x.Detail) {
 			same++
 		}
@@ -182,6 +199,8 @@ func (e *Explorer) report(x *Exec) {
 }
 
 // Explore runs the search. It returns true if the search completed within the deadline.
+//
+//go:norace
 func (e *Explorer) Explore() bool {
 	if e.Horizon == 0 {
 		e.Horizon = 20000
@@ -196,6 +215,13 @@ func (e *Explorer) Explore() bool {
 	// determinism check: first execution twice
 	a := e.runOnce(nil)
 	b := e.runOnce(nil)
+	if a.Verdict == "race" || b.Verdict == "race" {
+		// the race detector reports each racing pair once per process: a race verdict does not repeat
+		if a.Verdict == "race" {
+			e.report(a)
+		}
+		a.Verdict, b.Verdict = "", ""
+	}
 	if obsHash(a.Obs) != obsHash(b.Obs) || a.Verdict != b.Verdict || len(a.Choices) != len(b.Choices) {
 		e.Violations = append(e.Violations, Violation{Scenario: e.Name, Params: e.Params, Verdict: "harness-nondeterminism", Key: "harness-nondeterminism",
 			Detail: fmt.Sprintf("first execution is not reproducible:\nA(%s,%d choices): %v\nB(%s,%d choices): %v\nA detail: %s\nB detail: %s", a.Verdict, len(a.Choices), a.Obs, b.Verdict, len(b.Choices), b.Obs, a.Detail, b.Detail)})
@@ -217,6 +243,8 @@ func (e *Explorer) Explore() bool {
 // (or is being) explored from that state; a later arrival with no more budget
 // is pruned, since equal signatures mean equal states (same per-thread causal
 // histories) and therefore equal futures.
+//
+//go:norace
 func (e *Explorer) exploreNode(x *Exec, plen int, depth int) {
 	mine := depth >= 2 || e.Shard == 0 // top two levels are re-executed by every shard; only shard 0 counts them
 	e.account(x, mine)
